@@ -280,6 +280,11 @@ def run(chk):
         for open_tok in ("/* todo", "/* two\nlines", '"str', '"esc\\', "/re", "| desc", "// c", "x = [1,", "x = ", "b {", "a.b"):
             for tail in ("", "\n", "\n\n", " \n", "\r\n"):
                 raw.append({"text": head + open_tok + tail, "cls": "ends-inside-token"})
+    # many diagnostics in one file: the same faulty statement on 2 .. 40 lines (collect-all keeps going after each)
+    for bad in ("= x", "a = ", "a.", "}", "a = [1,", "a b c = 1", "! x", "a = 1 2"):
+        for n in (2, 9, 10, 11, 40):
+            raw.append({"text": "\n".join([bad] * n) + "\n", "cls": "many-errors"})
+            raw.append({"text": "ok = 1\n" + "\n".join([bad] * n), "cls": "many-errors"})
     for t in random_texts(rng, 1500 if quick else 40000):
         raw.append({"text": t, "cls": "random"})
     # canonical texts with other whitespace: re-indent / blank lines of fixtures
